@@ -18,6 +18,7 @@ CONSTANTS
   BroadcastDedup = TRUE
   FIX_PruneEmpty = TRUE
   AllowLate = TRUE
+  TrackEvicted = TRUE
   AtomicCheck = FALSE
   FlipAccounts = {"A", "B"}
   Self = "A"
